@@ -4,6 +4,7 @@ import MsPack.Chm.Encint
 import MsPack.Cabx.OutName
 import MsPack.Cabx.Modes
 import MsPack.Lzss.Decoder
+import MsPack.Oab.Crc32
 /-
 `prim WHAT ARGS…`: direct calls of the models of static functions.
 -/
@@ -29,6 +30,13 @@ def handle (toks : List String) : HM State Bool := do
     | some bs, some s => emit s!"prim cksum {Cab.cksum bs s}"
     | _, _ => emit "prim cksum bad-args"
     return true
+  | ["prim", "crc32", hex] =>
+    -- crc32.h crc32(0, data, len), decimal
+    match parseHex hex with
+    | some bs => emit s!"prim crc32 {Oab.crc32 0 bs}"
+    | none => emit "prim crc32 bad-args"
+    return true
+  | "prim" :: "crc32" :: _ => emit "prim crc32 bad-args"; return true
   | ["prim", "outname", nameHex, utf8, lower, dirHex] =>
     -- cabextract create_output_name(fname, dir, lower, isunix=0, utf8); DIR `-` = NULL, `=` = ""
     let dir : Option (Option Bytes) := if dirHex = "-" then some none else (parseHex dirHex).map some
